@@ -1,13 +1,10 @@
 //! verif-engine: property-based checks for qkniep/alpenglow.
 #![allow(dead_code)]
 
-mod engine;
-mod fixtures;
-mod props;
-
 use std::path::PathBuf;
 
-use engine::{RunArgs, Tier, run_property};
+use verif_engine::engine::{self, RunArgs, Tier, run_property};
+use verif_engine::props;
 
 fn usage() -> ! {
     eprintln!("usage: verif-engine <ID> [--tier quick|thorough] [--seed N] [--replay FILE] [--cases N] [--workers N]");
@@ -17,6 +14,20 @@ fn usage() -> ! {
 fn main() {
     let mut args = std::env::args().skip(1);
     let Some(id) = args.next() else { usage() };
+    if id == "fuzz-input" {
+        // replays one libFuzzer input (artefact or corpus file) through the fuzz entry:
+        // verif-engine fuzz-input <ID> <FILE>
+        let (Some(pid), Some(file)) = (args.next(), args.next()) else { usage() };
+        // SAFETY: single-threaded at this point
+        unsafe { std::env::set_var("VERIF_FUZZ_PROP", &pid) };
+        let data = std::fs::read(&file).unwrap_or_else(|e| {
+            eprintln!("harness error: cannot read {file}: {e}");
+            std::process::exit(2)
+        });
+        verif_engine::fuzz::one(&data);
+        println!("fuzz input {file}: held");
+        std::process::exit(0);
+    }
     let mut tier = match std::env::var("VERIF_TIER").ok().as_deref() {
         Some("thorough") => Tier::Thorough,
         _ => Tier::Quick,
